@@ -45,6 +45,9 @@ pub fn exec(ctx: &mut Ctx, case: &Case) {
             both_families!(ctx, Prod::Path, s, c12_queries);
             for mask in 0..(1u64 << steps) {
                 ctx.evals += 1;
+                if ctx.want_sample() {
+                    ctx.note_sample(Case::new("path").arg(s).num(mask));
+                }
                 both_families!(ctx, Prod::Path, s, c12_interleave, mask);
             }
         }
